@@ -140,7 +140,7 @@ func c17Docs() []*sbom.Document {
 	var out []*sbom.Document
 	for i := 0; i < 3; i++ {
 		d := sbom.NewDocument()
-		d.Metadata.Id = fmt.Sprintf("urn:uuid:c17-%d", i)
+		d.Metadata.Id = fmt.Sprintf("urn:uuid:c1700000-0000-4000-8000-00000000000%d", i)
 		d.Metadata.Version = "1"
 		d.NodeList.AddRootNode(&sbom.Node{Id: "root", Name: "root"})
 		for j := 0; j <= i; j++ {
